@@ -197,7 +197,7 @@ class Gen:
 
     def case(self, name):
         hdr = ['keys ' + ' '.join(map(str, self.keys[i:i + 40])) for i in range(0, max(len(self.keys), 1), 40)]
-        return Case(name, hdr + ['kind ' + self.kind], self.ops, 'random')
+        return Case(name, hdr + ['kind ' + self.kind, 'cmpmode %d' % self.rnd.choice([0, 1, 2])], self.ops, 'random')
 
 
 def random_history(rnd, kind, name, target, length, nkeys, readers=True, pattern=None):
@@ -254,3 +254,12 @@ def random_history(rnd, kind, name, target, length, nkeys, readers=True, pattern
             else:
                 g.insert(newkey())
     return g.case(name)
+
+
+def with_cmpmodes(cases, modes=(1,)):
+    """the closure cases once more for other magnitudes of the comparator's results"""
+    extra = []
+    for m in modes:
+        for c in cases:
+            extra.append(Case('%s_cm%d' % (c.name, m), c.header + ['cmpmode %d' % m], c.ops, c.origin))
+    return cases + extra
